@@ -18,6 +18,13 @@ MANIFEST = {
     "level_text": "PROVED for all inputs (coq/c03/C03Theorems.v): EncodeContainer = EncodeContainerSW on every container tree and "
                   "File.Encode = File.EncodeSW (init, sidx, segments, fragments, mfra; segment and box-tree mode) given leaves that encode "
                   "identically through their two methods (C03_encode_agree, C03_box_encode_agree; the pinned EncodeSW without mfra is refuted); "
+                  "the same as STATE TRANSFORMERS over encode HISTORIES (C03EncHistModel.v: MoofBox, MdatBox, Fragment, MediaSegment, File "
+                  "Encode and EncodeSW, one model function per Go text, over the C02 aggregate states - trun data offsets, tfhd / trun flags and "
+                  "defaults after OptimizeTfhdTrun, mdat LargeSize, EncOptimize): state and output after Encode = state and output after EncodeSW "
+                  "(C03_encode_state_agree); two histories that differ only in which encoder runs at each encoding step - with Size, Info and "
+                  "ARBITRARY state changes (additions, optimisation on/off) in between - give the same outcomes and the same final state "
+                  "(C03_encode_history_agree); the C02 history theorems hold for the two-text model (C03_encode_history_c02); an EncodeSW that keeps "
+                  "an already-set data offset is refuted by EncodeSW, add a sample, EncodeSW (C03_encode_stale_offset_refuted); "
                   "the DecodeFile and DecodeFileSR loops build the same File (grouping and StartPos) for every list of top-level box shapes "
                   "under the options both support (C03_file_agree), and with the per-moof SECOND SENC PASS inside both loops, each transcribed from its own Go text "
                   "(C03_file_agree_senc over boxes that carry the moov's tracks - tkhd id, clear / encrypted entry, tenc IV size - and the moof's trafs - "
@@ -435,6 +442,9 @@ def run(ctx):
         "stsd.go DecodeStsd/DecodeStsdSR, visualsampleentry.go DecodeVisualSampleEntry/...SR) is a hand transcription, one Gallina function per Go function",
         "model: coq/c03/C03SencPassModel.v (the case \"moof\" of the DecodeFile and of the DecodeFileSR loop, one Gallina function per Go text; the callees "
         "ContainsSencBox / IsEncrypted / GetSinf / ParseReadSenc / ParseReadBox are coq/c04/C04XrefModel.v + C04AllocModel.v, imported read-only)",
+        "model: coq/c03/C03EncHistModel.v (Encode / EncodeSW of MoofBox, MdatBox, Fragment, MediaSegment, File as state transformers, one function per Go "
+        "text; the states and the callees OptimizeTfhdTrun / SetTrunDataOffsets / MdatBox.Size are coq/c02/C02AggModel.v + coq/c05, imported read-only; "
+        "hooks mp4.VerifC02FirstSampleFlags / VerifC05WriteOrderNr read two unexported trun fields)",
         "hook: /repo/mp4/verif_c03.go VerifDecoderKeys (add-only, build tag verif); coq/c03/C03Registry.v generated from it",
         "source facts: harness/c03/srcfacts.go classifies every registered decoder pair and every Encode/EncodeSW pair from the sources "
         "(coq/c03/C03Facts.v generated from it on every run); the classes it accepts are syntactic shapes, the step from `only listed reader "
@@ -455,7 +465,7 @@ def run(ctx):
     rc, cases, e = harness(exe, ["corr", "-seed", ctx.seed, "-n", n, "-exh", exh], 3000)
     if rc != 0:
         raise common.CheckError("harness corr failed rc=%s: %s" % (rc, e[-1000:]))
-    lines = [l for l in cases.splitlines() if l[:2] in ("D\t", "E\t", "B\t", "L\t", "T\t", "V\t", "M\t", "P\t", "Y\t")]
+    lines = [l for l in cases.splitlines() if l[:2] in ("D\t", "E\t", "B\t", "L\t", "T\t", "V\t", "M\t", "P\t", "Y\t", "H\t")]
     res = common.run_model(model, "\n".join(lines) + "\n")
     mism = [l for l in res if not l.startswith("OK ")]
     distinct = len(set(l.split("\t", 2)[2] for l in lines))
@@ -463,7 +473,7 @@ def run(ctx):
     ctx.cov["distinct_nontrivial"] += distinct
     ctx.notes["correspondence"] = {
         "cases": len(lines), "mismatches": len(mism), "distinct_cases": distinct,
-        "kinds": {k: sum(1 for l in lines if l.startswith(k + "\t")) for k in ("D", "E", "B", "L", "T", "V", "M", "P", "Y")},
+        "kinds": {k: sum(1 for l in lines if l.startswith(k + "\t")) for k in ("D", "E", "B", "L", "T", "V", "M", "P", "Y", "H")},
         "input_distribution": "D: all shape lists up to length %d over the 32-letter alphabet (C04's 29 + mdat(0/4) and an unknown box behind a 16-byte "
                               "header) + %d random longer lists, through DecodeFile and "
                               "DecodeFileSR with flags none / start-on-moof: outcome class, grouping, StartPos; E: the same lists (length >= 2) and 6 small "
@@ -484,8 +494,12 @@ def run(ctx):
                               "unparsed senc that parses (8- or 16-byte IVs, sub-samples) / that does not / PIFF senc / saio matching, mismatching, empty / "
                               "seig sample group: every ordered pair of the 12 traf kinds, clear-encrypted-zero-sample triples in every order under 8 trak "
                               "sets, two moofs, + %d random; through DecodeFile and DecodeFileSR with flags none / start-on-moof vs decode_file_xr / "
-                              "decode_file_xsr: outcome class, grouping, StartPos, and per traf (unparsed, len(IVs), len(SubSamples)) of the picked senc"
-                              % (exh, n, n, n, n, n // 4),
+                              "decode_file_xsr: outcome class, grouping, StartPos, and per traf (unparsed, len(IVs), len(SubSamples)) of the picked senc; "
+                              "H: %d fragments / segments / files built through the public API (every third with hand-made shapes) + small testdata "
+                              "files decoded (both modes), each under a fixed and a random history over Encode / EncodeSW / Size / Info / toggle "
+                              "OptimizeTrun / add a full sample: after every step the outcome (Size, length + md5 + box lengths of the bytes, error, panic) "
+                              "and the mutated fields vs hfrag/hseg/hfile_w for Encode and _sw for EncodeSW, the structure re-serialised after every "
+                              "addition / toggle" % (exh, n, n, n, n, n // 4, n),
     }
     ctx.cov["samples"] += [l[:300] for l in lines[:2]] + [l[:300] for l in lines[len(lines) // 2:len(lines) // 2 + 2]]
     ctx.log("correspondence: %d cases, %d mismatches" % (len(lines), len(mism)))
@@ -547,7 +561,9 @@ def run(ctx):
                        "testdata file and synthesized progressive/fragmented file with largesize mdat boxes before/between/after its boxes, every generated "
                        "leaf-pair box, through both decode paths and both encoders: accept+reproduce on one path => accept, equal Info(all:1) dump, "
                        "field-by-field equal structure, equal sizes/LargeSize/StartPos/grouping and the same re-encoding on the other; "
-                       "Encode vs EncodeSW equal bytes or both fail (both modes, ISM on/off)")
+                       "Encode vs EncodeSW equal bytes or both fail (both modes, ISM on/off); encode HISTORIES on API-built fragments / segments / files: the same "
+                       "structure under a history and under the history with the two encoders exchanged (and Encode only / EncodeSW only), with "
+                       "additions and OptimizeTrun toggles in between: equal outcome and equal mutated fields after every step")
 
 
 def replay(ctx, path):
@@ -555,6 +571,13 @@ def replay(ctx, path):
     r = json.load(open(path))
     print(json.dumps(r, indent=1)[:6000])
     w = r.get("witness", "")
+    if w.startswith("hist:"):
+        exe, _ = build(ctx)
+        m = re.match(r"hist:kind=(\d+),seed=(\d+),wild=(\w+),([^|]*)\|(.*)", w)
+        if m:
+            rc, o, e = sh2([exe, "hist", m.group(1), m.group(2), m.group(3), m.group(4), m.group(5)], timeout=120)
+            print("replayed on the current tree (one line per history: outcome/mutated fields after every step):\n" + o[:4000], e[-300:])
+        return 0
     if "hex:" in w:
         exe, _ = build(ctx)
         hexs = w.split("hex:")[1].split()[0]
